@@ -60,7 +60,8 @@ class CharRule:
 class Schema:
     def __init__(s, name, rules, root, ops, n=3, alphabet='x', props=(), extract='', support='', post='', types='',
                  nonzero=(), cmp_err=True, cmp_fields=True, custom_ws=None, nchk=0, user_ctx=None, derives=None,
-                 tracer=False, allow_sentinel=False, via_public=False, extern_str='', isolated=False, expect='ok', raw_ebnf=None, note='', kani=True, twin_of=None, root_call=None):
+                 tracer=False, allow_sentinel=False, via_public=False, extern_str='', isolated=False, expect='ok', raw_ebnf=None, note='', kani=True, twin_of=None, root_call=None,
+                 aux_of=None, aux_kind=None, inline_includes=False):
         s.__dict__.update(locals()); del s.__dict__['s']
 
 # ------------------------------------------------------------------------------------------------ grammar text
@@ -84,8 +85,46 @@ def ebnf_node(n, top=False):
     if isinstance(n, AnyChar): return 'char'
     if isinstance(n, Eoi): return '$'
     if isinstance(n, Ref): return n.rule
-    if isinstance(n, Inc): return '>' + n.rule
+    if isinstance(n, Inc):
+        if _INLINE_RULES is not None:
+            # differential twin for C13: "the grammar obtained by textually replacing that include with the parenthesised body of the rule"
+            return '(' + ebnf_node(_INLINE_RULES[n.rule].body, True) + ')'
+        return '>' + n.rule
     raise Exception('ebnf: ' + repr(n))
+
+_INLINE_RULES = None
+
+def has_include(schema):
+    def walk(n):
+        if isinstance(n, Inc): return True
+        for k in ('xs',):
+            if hasattr(n, k) and any(walk(x) for x in getattr(n, k)): return True
+        for k in ('x', 'node'):
+            if hasattr(n, k) and isinstance(getattr(n, k), N) and walk(getattr(n, k)): return True
+        return False
+    return any(not isinstance(r, CharRule) and walk(r.body) for r in schema.rules)
+
+def derive_twin(schema, kind):
+    """auxiliary schema for the differential properties: the same expression tree, operands, alphabet and bound with exactly
+    the feature in question removed. 'inl': every >Rule replaced by the parenthesised body (C13); 'nomemo': no @memoize (C05);
+    'notrace': no tracer (C19). Twins are never judged against the reference semantics; `tenum diff` compares the real runs."""
+    import copy
+    t = copy.copy(schema)
+    t.name = schema.name + '__' + kind
+    t.aux_of, t.aux_kind = schema.name, kind
+    t.kani = False
+    t.twin_of = None
+    t.props = ()
+    if kind == 'inl':
+        t.inline_includes = True
+    elif kind == 'nomemo':
+        t.rules = [copy.copy(r) for r in schema.rules]
+        for r in t.rules:
+            if not isinstance(r, CharRule): r.memo = False
+    elif kind == 'notrace':
+        t.tracer = False
+    t.note = 'differential twin of %s (%s)' % (schema.name, {'inl': 'includes written out in place', 'nomemo': 'without @memoize', 'notrace': 'without a tracer'}[kind])
+    return t
 
 def ebnf_atom(n):
     t = ebnf_node(n)
@@ -107,7 +146,15 @@ def bound_for(schema, cap):
     return n
 
 def ebnf(schema):
+    global _INLINE_RULES
     if schema.raw_ebnf is not None: return schema.raw_ebnf
+    _INLINE_RULES = {r.name: r for r in schema.rules} if schema.inline_includes else None
+    try:
+        return _ebnf(schema)
+    finally:
+        _INLINE_RULES = None
+
+def _ebnf(schema):
     out = []
     for r in schema.rules:
         if isinstance(r, CharRule):
